@@ -5,7 +5,9 @@ package dmap
 import (
 	"context"
 
+	"github.com/olric-data/olric/config"
 	"github.com/olric-data/olric/internal/cluster/routingtable"
+	"github.com/olric-data/olric/pkg/flog"
 
 	"github.com/olric-data/olric/internal/cluster/partitions"
 	"github.com/redis/go-redis/v9"
@@ -108,4 +110,27 @@ func (s *Service) VerifEntryCount(name string) int {
 		}
 	}
 	return n
+}
+
+// Views of a member for the balancer harness.
+func (v *VerifCluster) Primary(i int) *partitions.Partitions { return v.cl.members[i].svc.primary }
+func (v *VerifCluster) Backup(i int) *partitions.Partitions  { return v.cl.members[i].svc.backup }
+func (v *VerifCluster) Config(i int) *config.Config          { return v.cl.members[i].svc.config }
+func (v *VerifCluster) Log(i int) *flog.Logger               { return v.cl.members[i].svc.log }
+
+// StoredOn reads member i's own primary copy of a key.
+func (v *VerifCluster) StoredOn(i int, name, key string) ([]byte, bool) {
+	e, ok := vpCopy(v.cl.members[i], name, key, partitions.PRIMARY)
+	if !ok {
+		return nil, false
+	}
+	return vpDup(e.Value()), true
+}
+
+// VerifNewHandOver: two members, one partition handed over from member 0 (previous owner, still holding the data)
+// to member 1; ReplicaCount 1.
+func VerifNewHandOver() *VerifCluster {
+	cl := vpNewCluster(vpClusterConfig{members: 2, replicaCount: 1, writeQuorum: 1, readQuorum: 1, partitions: 1})
+	cl.vpSetOwners(0, []int{0, 1}, nil)
+	return &VerifCluster{cl: cl}
 }
